@@ -91,7 +91,7 @@ def build(work, tier):
         small.append(low(DISCO, 'QXmppDiscoveryIq', name, 'QXmppDiscoveryIq_' + name)[1])
     for name in ('clientCategory', 'clientType', 'clientName', 'clientCapabilitiesNode'):
         small.append(low(MANAGER, 'QXmppDiscoveryManager', name, 'QXmppDiscoveryManager_' + name)[1])
-    for name in ('setCapabilityHash', 'setCapabilityNode', 'setCapabilityVer'):
+    for name in ('setCapabilityHash', 'setCapabilityNode', 'setCapabilityVer', 'capabilityHash', 'capabilityNode', 'capabilityVer'):
         small.append(low(PRESENCE, 'QXmppPresence', name, 'QXmppPresence_' + name)[1])
     sp_caps, t_caps = low(MANAGER, 'QXmppDiscoveryManager', 'capabilities', CAPS, 'capabilities.spec')
     sp_hiq, t_hiq = low(MANAGER, 'QXmppDiscoveryManager', 'handleIq', HIQ, 'handleIq.spec')
